@@ -1,7 +1,8 @@
 import TabulaModel.Util
 import TabulaModel.Model.Sheet
+import TabulaModel.Model.Workbook
 namespace Tabula.C17H
-open Tabula Tabula.A1 Tabula.Sheet
+open Tabula Tabula.A1 Tabula.Sheet Tabula.Wb
 
 def toStr (b : Bytes) : Str := b.map (·.toNat)
 def ofStr (s : Str) : Bytes := s.map UInt8.ofNat
@@ -39,6 +40,187 @@ def dumpGrid (g : Grid) : String :=
       some s!"{ri},{ci},{ctypeName c.type},{hexS c.value},{c.merged},{c.root},{c.mergeRows},{c.mergeCols}")
   s!"{g.length}x{ncols} [{";".intercalate cells}] {hexS (sheetText g)}"
 
+
+/-! ## the workbook-level ops (model: `Model/Workbook.lean`) -/
+
+def stripKey (s : String) : String := ((s.splitOn "=").drop 1 |> "=".intercalate)
+
+def parseSI (s : String) : Option SI :=
+  match s.splitOn "~" with
+  | t :: runs => do
+    let t ← unhexS t
+    let rs ← runs.mapM unhexS
+    pure ⟨t, rs⟩
+  | [] => none
+
+def parseSIs (s : String) : Option (List SI) :=
+  if s == "" then some [] else (s.splitOn ",").mapM parseSI
+
+def parsePart (s : String) : Option (Option SheetXML) :=
+  if s == "~" then some none else
+  match s.splitOn "!" with
+  | [n, rows, merges, mem] => do
+    let n ← unhexS n
+    let rs ← if rows == "" then some [] else (rows.splitOn "/").mapM parseRow
+    let ms ← parseHexList merges
+    let mem ← unhexS mem
+    pure (some ⟨n, rs, ms, mem⟩)
+  | _ => none
+
+def parseParts (s : String) : Option (List (Option SheetXML)) :=
+  if s == "" then some [] else (s.splitOn "@").mapM parsePart
+
+def parseIntList (s : String) : Option (List Int) :=
+  if s == "" then some [] else (s.splitOn ",").mapM (·.toInt?)
+
+def parseBool (s : String) : Option Bool :=
+  if s == "1" then some true else if s == "0" then some false else none
+
+def parseOpts (s : String) : Option ExtractOptions :=
+  match s.splitOn ";" with
+  | [sel, hdr, d, xh, xf] => do
+    let sel ← parseIntList sel
+    let hdr ← parseBool hdr
+    let d ← unhexS d
+    let xh ← parseBool xh
+    let xf ← parseBool xf
+    pure { sheets := sel, includeHeaders := hdr, delimiter := d, excludeHeaders := xh, excludeFooters := xf }
+  | _ => none
+
+def parseMdOpts (s : String) : Option MdOptions :=
+  match s.splitOn ";" with
+  | [m, t, off, mx] => do
+    let m ← parseBool m
+    let t ← parseBool t
+    let off ← off.toInt?
+    let mx ← mx.toInt?
+    pure { includeMetadata := m, includeTOC := t, headingLevelOffset := off, maxHeadingLevel := mx }
+  | _ => none
+
+def loadWb (si sh : String) : Option (Option Reader) := do
+  let sis ← parseSIs (stripKey si)
+  let parts ← parseParts (stripKey sh)
+  pure (openWorkbook sis parts)
+
+def dumpCell (c : Cell) : String :=
+  s!"{ctypeName c.type},{hexS c.value},{c.merged},{c.root},{c.mergeRows},{c.mergeCols}"
+
+def dumpCells (g : Grid) : String :=
+  let ncols := match g with | [] => 0 | r :: _ => r.length
+  let cells := (g.zipIdx.flatMap fun (row, ri) =>
+    row.zipIdx.filterMap fun (c, ci) =>
+      if c == ({} : Cell) then none else some s!"{ri},{ci},{dumpCell c}")
+  s!"{g.length}x{ncols} [{";".intercalate cells}]"
+
+def dumpBounds (b : Bounds) : String := s!"{b.minRow}.{b.maxRow}.{b.minCol}.{b.maxCol}"
+
+def dumpOpen (r : Reader) : String :=
+  s!"{r.sheetCount}|" ++ ";".intercalate (r.sheets.map fun s =>
+    s!"{hexS s.name},{s.index},{s.rowCount},{s.colCount},{dumpBounds (findContentBounds s)}")
+
+def dumpDoc (d : List DPage) : String :=
+  ";".intercalate (d.map fun p =>
+    match p.table with
+    | none => s!"{p.number}:none"
+    | some t =>
+      let ncols := match t with | [] => 0 | r :: _ => r.length
+      let cells := t.flatMap fun row => row.map fun c => s!"{hexS c.text}.{c.rowSpan}.{c.colSpan}.{c.isHeader}"
+      s!"{p.number}:{t.length}x{ncols}:{",".intercalate cells}")
+
+def dumpTables (ts : List PTable) : String :=
+  ";".intercalate (ts.map fun t =>
+    let hs := ",".intercalate (t.headers.map hexS)
+    let rs := "/".intercalate (t.rows.map fun row => ",".intercalate (row.map hexS))
+    s!"{hexS t.name}:{hs}:{rs}:{hexS t.toText}:{hexS t.toMarkdown}")
+
+def dumpOptCell : Option Cell → String
+  | none => "nil"
+  | some c => dumpCell c
+
+def dumpResult : Result → String
+  | .str s => hexS s
+  | .doc d => dumpDoc d
+  | .tables t => dumpTables t
+  | .cell c => dumpOptCell c
+  | .names n => ",".intercalate (n.map hexS)
+  | .idx none => "nil"
+  | .idx (some i) => toString i
+  | .unit => "closed"
+
+def parseCall (s : String) : Option Call :=
+  let body := (s.drop 1).toString
+  match (s.take 1).toString with
+  | "T" => (parseOpts body).map .text
+  | "M" => (parseOpts body).map .markdown
+  | "D" => some .document
+  | "B" => some .tables
+  | "N" => some .names
+  | "Y" => (unhexS body).map .byName
+  | "X" => some .close
+  | "C" => match body.splitOn "," with
+    | [k, r, c] => do pure (.cell (← k.toInt?) (← r.toInt?) (← c.toInt?))
+    | _ => none
+  | "R" => match body.splitOn "," with
+    | [k, ref] => do pure (.cellByRef (← k.toInt?) (← unhexS ref))
+    | _ => none
+  | _ => none
+
+def handleWb (op : String) (args : List String) : String :=
+  match op, args with
+  | "c17.sst", [si] => match parseSIs (stripKey si) with
+    | some sis => ",".intercalate ((parseSharedStrings sis).map hexS)
+    | none => "bad-op"
+  | "c17.esc", [h] => match unhexS h with
+    | some s => hexS (escapeMarkdown s) | none => "bad-op"
+  | "c17.level", [off, mx, lvl] => match off.toInt?, mx.toInt?, lvl.toInt? with
+    | some off, some mx, some lvl => toString (adjustHeadingLevel { headingLevelOffset := off, maxHeadingLevel := mx } lvl)
+    | _, _, _ => "bad-op"
+  | "c17.open", [si, sh] => match loadWb si sh with
+    | some (some r) => dumpOpen r
+    | some none => "err"
+    | none => "bad-op"
+  | "c17.grid", [si, sh, k] => match loadWb si sh, k.toInt? with
+    | some (some r), some k => (match r.sheet k with
+      | some s => dumpCells s.rows | none => "nil")
+    | some none, some _ => "err"
+    | _, _ => "bad-op"
+  | "c17.text", [si, sh, o] => match loadWb si sh, parseOpts (stripKey o) with
+    | some (some r), some o => hexS (textWithOptions r o)
+    | some none, some _ => "err"
+    | _, _ => "bad-op"
+  | "c17.apitext", [si, sh, xh, xf] => match loadWb si sh, parseBool xh, parseBool xf with
+    | some (some r), some xh, some xf => hexS (apiText r xh xf)
+    | some none, some _, some _ => "err"
+    | _, _, _ => "bad-op"
+  | "c17.md", [si, sh, o, mo, f, t] =>
+    match loadWb si sh, parseOpts (stripKey o), parseMdOpts (stripKey mo), unhexS (stripKey f), unhexS (stripKey t) with
+    | some (some r), some o, some mo, some f, some t => hexS (markdownWithRAG r o mo f t)
+    | some none, some _, some _, some _, some _ => "err"
+    | _, _, _, _, _ => "bad-op"
+  | "c17.apimd", [si, sh, xh, xf, mo, f, t] =>
+    match loadWb si sh, parseBool xh, parseBool xf, parseMdOpts (stripKey mo), unhexS (stripKey f), unhexS (stripKey t) with
+    | some (some r), some xh, some xf, some mo, some f, some t => hexS (apiMarkdown r xh xf mo f t)
+    | some none, some _, some _, some _, some _, some _ => "err"
+    | _, _, _, _, _, _ => "bad-op"
+  | "c17.mdopt", [si, sh, o] => match loadWb si sh, parseOpts (stripKey o) with
+    | some (some r), some o => hexS (markdownWithOptions r o)
+    | some none, some _ => "err"
+    | _, _ => "bad-op"
+  | "c17.doc", [si, sh] => match loadWb si sh with
+    | some (some r) => dumpDoc (apiDocument r)
+    | some none => "err"
+    | none => "bad-op"
+  | "c17.tables", [si, sh] => match loadWb si sh with
+    | some (some r) => dumpTables (tables r)
+    | some none => "err"
+    | none => "bad-op"
+  | "c17.seq", [si, sh, calls] =>
+    match loadWb si sh, (if calls == "" then some [] else (calls.splitOn "/").mapM parseCall) with
+    | some (some r), some cs => "/".intercalate ((runCalls ⟨r, true⟩ cs).map dumpResult)
+    | some none, some _ => "err"
+    | _, _ => "bad-op"
+  | _, _ => "bad-op"
+
 def handle (op : String) (args : List String) : String :=
   match op, args with
   | "c17.col2idx", [h] => match unhexS h with
@@ -60,6 +242,6 @@ def handle (op : String) (args : List String) : String :=
           parseHexList (merges.drop 2).toString with
     | some sh, some rs, some ms => dumpGrid (parseWorksheet sh rs ms)
     | _, _, _ => "bad-op"
-  | _, _ => "bad-op"
+  | _, _ => handleWb op args
 
 end Tabula.C17H
